@@ -71,6 +71,21 @@ def c12_violation(rows, nf, unaligned=False):
             return "medoid is not a member"
         if not np.isnan(cs).any() and any(float(cs[k]) < float(cs[idx]) for k in range(n)):
             return "medoid does not minimise complementary similarity"
+        # complementary similarity = iSIM of the set without that row (exact rational reference;
+        # an all-empty remainder has iSIM 1); never NaN for three or more rows
+        exact = []
+        for k in range(n):
+            rest = [int(v) for v in (ls - A[k].astype(np.uint64))]
+            ex = exact_isim(rest, n - 1)
+            exact.append(Fraction(1) if sum(rest) == 0 else ex)
+            v = float(cs[k])
+            if v != v:
+                return f"complementary similarity of row {k} is NaN (exact value {float(exact[-1])!r})"
+            if (n - 1) * sum(rest) < 2 ** 52 and Fraction(v) != Fraction(float(exact[-1])):
+                return (f"complementary similarity of row {k} is {v!r}, the correctly rounded leave-one-out "
+                        f"iSIM is {float(exact[-1])!r}")
+        if exact[idx] != min(exact):
+            return "medoid does not minimise the (exact) complementary similarity"
     return None
 
 
